@@ -160,6 +160,14 @@ def make_exc(name: str):
 
 
 CANCEL_KINDS = ("cancel", "kbd", "sysexit")
+class _NoTruthValue:
+    def __init__(self, x):
+        self.x = x
+
+    def __bool__(self):
+        raise self.x
+
+
 _TERMINAL_EVENTS = {"success", "permanent_fail", "deadline_exceeded", "max_attempts_exceeded", "max_unknown_attempts_exceeded", "no_strategy_configured", "budget_exhausted", "scheduled", "aborted"}
 
 
@@ -310,7 +318,7 @@ class Harness:
         self.n[name] = i + 1
         return i
 
-    def cb_fault(self, name):
+    def cb_fault(self, name, defer=False):
         f = self.fault
         if f is None or f.get("kind") != "cb" or f["cb"] != name:
             # still count
@@ -322,7 +330,10 @@ class Harness:
             x = make_exc(f["exc"])
             self.cur.objs["fault"] = x
             self.cur.trace.append(("fault", name, f["exc"]))
+            if defer and f.get("via") == "bool":
+                return x  # the caller hands back an answer whose truth value raises this
             raise x
+        return None
 
     def hook_fault(self, name):
         f = self.fault
@@ -540,7 +551,10 @@ class Harness:
         if rec.env.get("abort_after_terminal") and any(e_[0] == "metric" and e_[1] in _TERMINAL_EVENTS for e_ in rec.trace):
             ans = True  # a shutdown flag raised by whoever watches the event stream, once the run has reported its terminal event
         rec.trace.append(("poll", i, ans, self.now()))
-        self.cb_fault("abort_if")
+        x = self.cb_fault("abort_if", defer=True)
+        if x is not None:
+            # "should I stop?" answered with an object that cannot be reduced to a bool (an array, a lazy proxy whose backend is gone)
+            return _NoTruthValue(x)
         enc = self.sc.get("poll_kind", "bool")
         if enc == "int":
             return (i + 3) if ans else 0
